@@ -212,7 +212,8 @@ def build_harness():
 def run_harness(mode, outdir, seed, n, tier, extra=(), timeout=900):
     shutil.rmtree(outdir, ignore_errors=True)
     os.makedirs(outdir)
-    cmd = [os.path.join(BIN, "harness"), mode, "-seed", str(seed), "-n", str(n), "-out", outdir, "-tier", tier] + list(extra)
+    cmd = [os.path.join(BIN, "harness"), mode, "-seed", str(seed), "-n", str(n), "-out", outdir, "-tier", tier,
+           "-deadline", str(240 if tier == "quick" else max(600, timeout - 600))] + list(extra)
     rc, out = sh(cmd, timeout=timeout)
     if rc != 0:
         raise Broken("harness-run:" + mode, out[-4000:])
